@@ -10,6 +10,8 @@
 //! nullability). Data the writer or the schema conversion refuses is a rejected input.
 
 use arrow_array::{Array, ArrayRef, RecordBatch, UInt32Array};
+#[allow(unused_imports)]
+use arrow_array::Array as _;
 use arrow_schema::{DataType, Field, Schema as ArrowSchema};
 use futures::{FutureExt, TryStreamExt};
 use lance_core::cache::LanceCache;
@@ -344,21 +346,62 @@ struct Ctx<'a> {
     idx: u64,
 }
 
-async fn run_case(ctx: &Ctx<'_>, rng: &mut Rng, selftest: bool) {
-    let report = ctx.report;
-    let c = gen_case(rng);
+/// one refuting observation on one file
+#[derive(Clone, Debug)]
+struct Viol {
+    /// symptom class, e.g. "panic-at-primitive.rs:2351", "cell-differs-list-length", "row-count"
+    kind: String,
+    what: String,
+    detail: Value,
+    /// top-level column the observation is about (if known)
+    column: Option<usize>,
+}
+
+#[derive(Default)]
+struct Stats {
+    reads: Vec<(&'static str, bool)>,
+    cells_compared: u64,
+    helpers_compared: u64,
+    selftest_corrupted: u64,
+    selftest_flagged: u64,
+    inconclusive: Vec<String>,
+    projection_rejected: Vec<String>,
+}
+
+enum FileOutcome {
+    SchemaRejected(String),
+    WriterRejected(String),
+    WriterPanicked(String),
+    Inconclusive(String),
+    Checked(Vec<Viol>, Stats),
+}
+
+thread_local! {
+    static PANICS: std::cell::RefCell<Vec<String>> = const { std::cell::RefCell::new(Vec::new()) };
+}
+
+fn clear_panics() {
+    let _ = PANICS.try_with(|p| p.borrow_mut().clear());
+}
+/// first panic seen on this thread since `clear_panics` (the inner one when a task panic is re-raised)
+fn first_panic() -> String {
+    PANICS
+        .try_with(|p| p.borrow().first().cloned())
+        .ok()
+        .flatten()
+        .or_else(|| LAST_PANIC.lock().unwrap().clone())
+        .unwrap_or_default()
+}
+
+/// Write `c`, read it back in `n` ways derived from `read_seed`, compare. Reports nothing.
+async fn check_file(c: &FileCase, read_seed: u64, selftest: bool) -> FileOutcome {
+    let mut rng = Rng::new(read_seed);
+    let rng = &mut rng;
     let n_total: usize = c.batches.iter().map(|b| b.num_rows()).sum();
-    let base_witness = json!({"seed": ctx.seed as i64, "case": ctx.idx, "schema": schema_desc(&c.schema),
-        "batch_rows": c.batches.iter().map(|b| b.num_rows()).collect::<Vec<_>>(), "options": c.options_desc});
+    let vname = version_name(c.version);
     let lance_schema = match LanceSchema::try_from(c.schema.as_ref()) {
         Ok(s) => s,
-        Err(e) => {
-            report.rejected();
-            report.count("rejected.schema_conversion", 1);
-            note_reject(report, "schema", &e.to_string());
-            report.case(None);
-            return;
-        }
+        Err(e) => return FileOutcome::SchemaRejected(e.to_string()),
     };
     let store = Arc::new(ObjectStore::memory());
     let path = Path::from("f.lance");
@@ -383,53 +426,23 @@ async fn run_case(ctx: &Ctx<'_>, rng: &mut Rng, selftest: bool) {
         let rows = w.finish().await?;
         lance_core::Result::Ok((rows, mapping))
     };
+    clear_panics();
     let wres = tokio::time::timeout(Duration::from_secs(180), AssertUnwindSafe(write).catch_unwind()).await;
-    let written = match wres {
-        Err(_) => {
-            report.inconclusive(&format!("C25 case {}: writer did not finish in 180 s", ctx.idx));
-            report.case(None);
-            return;
-        }
-        Ok(Err(_p)) => {
-            let loc = LAST_PANIC.lock().unwrap().clone().unwrap_or_default();
-            let mut w = base_witness.clone();
-            w["panic"] = json!(loc);
-            report.violation(
-                &format!("panic-in-writer-{}-at-{}", version_name(c.version), short_loc(&loc)),
-                &format!("file writer panicked: {loc}"),
-                w,
-            );
-            report.case(None);
-            return;
-        }
-        Ok(Ok(Err(e))) => {
-            report.rejected();
-            report.count(&format!("rejected.writer.{}", version_name(c.version)), 1);
-            note_reject(report, version_name(c.version), &e.to_string());
-            report.case(None);
-            return;
-        }
+    let (written, mapping) = match wres {
+        Err(_) => return FileOutcome::Inconclusive("writer did not finish in 180 s".into()),
+        Ok(Err(_p)) => return FileOutcome::WriterPanicked(first_panic()),
+        Ok(Ok(Err(e))) => return FileOutcome::WriterRejected(e.to_string()),
         Ok(Ok(Ok(x))) => x,
     };
-    let (written, mapping) = written;
-    // accepted
-    let mut tn = vec![];
-    for f in c.schema.fields() {
-        type_names(f, &mut tn);
-    }
-    for t in &tn {
-        report.count(&format!("type.{t}"), 1);
-    }
-    report.count(&format!("files.{}", version_name(c.version)), 1);
-    report.count("rows_written", n_total as u64);
+    let mut viols: Vec<Viol> = vec![];
+    let mut stats = Stats::default();
     if written as usize != n_total {
-        let mut w = base_witness.clone();
-        w["finish_returned"] = json!(written);
-        report.violation(
-            &format!("finish-row-count-{}", version_name(c.version)),
-            &format!("finish() returned {written}, {n_total} rows were written"),
-            w,
-        );
+        viols.push(Viol {
+            kind: "finish-row-count".into(),
+            what: format!("finish() returned {written}, {n_total} rows were written"),
+            detail: json!({"finish_returned": written}),
+            column: None,
+        });
     }
     let expected = expected_columns(&c.batches, c.schema.fields().len());
     // ---- open
@@ -446,57 +459,55 @@ async fn run_case(ctx: &Ctx<'_>, rng: &mut Rng, selftest: bool) {
         let fs = sched.open_file(&path, &CachedFileSize::unknown()).await?;
         FileReader::try_open(fs, None, Arc::<DecoderPlugins>::default(), &cache, ropts.clone()).await
     };
+    clear_panics();
     let reader = match tokio::time::timeout(Duration::from_secs(180), AssertUnwindSafe(open).catch_unwind()).await {
-        Err(_) => {
-            report.inconclusive(&format!("C25 case {}: open did not finish in 180 s", ctx.idx));
-            report.case(None);
-            return;
-        }
+        Err(_) => return FileOutcome::Inconclusive("open did not finish in 180 s".into()),
         Ok(Err(_)) => {
-            let loc = LAST_PANIC.lock().unwrap().clone().unwrap_or_default();
-            let mut w = base_witness.clone();
-            w["panic"] = json!(loc);
-            report.violation(
-                &format!("panic-opening-written-file-{}-at-{}", version_name(c.version), short_loc(&loc)),
-                &format!("FileReader::try_open panicked on a file the writer produced: {loc}"),
-                w,
-            );
-            report.case(None);
-            return;
+            let loc = first_panic();
+            viols.push(Viol {
+                kind: format!("panic-opening-written-file-at-{}", short_loc(&loc)),
+                what: format!("FileReader::try_open panicked on a file the writer produced: {loc}"),
+                detail: json!({"panic": loc}),
+                column: None,
+            });
+            return FileOutcome::Checked(viols, stats);
         }
         Ok(Ok(Err(e))) => {
-            let mut w = base_witness.clone();
-            w["error"] = json!(e.to_string());
-            report.violation(
-                &format!("cannot-open-written-file-{}", version_name(c.version)),
-                &format!("FileReader::try_open failed on a file the writer produced: {e}"),
-                w,
-            );
-            report.case(None);
-            return;
+            viols.push(Viol {
+                kind: "cannot-open-written-file".into(),
+                what: format!("FileReader::try_open failed on a file the writer produced: {e}"),
+                detail: json!({"error": e.to_string()}),
+                column: None,
+            });
+            return FileOutcome::Checked(viols, stats);
         }
         Ok(Ok(Ok(r))) => r,
     };
     if reader.num_rows() as usize != n_total {
-        let mut w = base_witness.clone();
-        w["num_rows"] = json!(reader.num_rows());
-        report.violation(
-            &format!("num-rows-{}", version_name(c.version)),
-            &format!("reader.num_rows() = {}, written {n_total}", reader.num_rows()),
-            w,
-        );
+        viols.push(Viol {
+            kind: "num-rows".into(),
+            what: format!("reader.num_rows() = {}, written {n_total}", reader.num_rows()),
+            detail: json!({"num_rows": reader.num_rows()}),
+            column: None,
+        });
     }
+    // the writer was given the Lance schema (which e.g. does not keep the nullability of fixed-size
+    // list items): that is what the file has to reproduce
+    let given = ArrowSchema::from(&lance_schema);
     let file_arrow = ArrowSchema::from(reader.schema().as_ref());
-    let schema_ok = file_arrow.fields().len() == c.schema.fields().len()
-        && file_arrow.fields().iter().zip(c.schema.fields().iter()).all(|(a, b)| same_field(a, b));
+    let schema_ok = file_arrow.fields().len() == given.fields().len()
+        && file_arrow.fields().iter().zip(given.fields().iter()).all(|(a, b)| same_field(a, b));
     if !schema_ok {
-        let mut w = base_witness.clone();
-        w["file_schema"] = json!(schema_desc(&file_arrow));
-        report.violation(
-            &format!("schema-differs-{}", version_name(c.version)),
-            "schema stored in the file differs from the written schema (names / types / nullability)",
-            w,
-        );
+        viols.push(Viol {
+            kind: "schema-differs".into(),
+            what: "schema stored in the file differs from the schema given to the writer (names / types / nullability)".into(),
+            detail: json!({"file_schema": schema_desc(&file_arrow), "given_schema": schema_desc(&given)}),
+            column: None,
+        });
+    }
+    let mut tn = vec![];
+    for f in c.schema.fields() {
+        type_names(f, &mut tn);
     }
     // ---- reads
     let n_reads = if n_total == 0 { 2 } else { rng.urange(8, 12) };
@@ -504,11 +515,15 @@ async fn run_case(ctx: &Ctx<'_>, rng: &mut Rng, selftest: bool) {
     for f in c.schema.fields() {
         leaf_paths(f, f.name(), &mut paths);
     }
-    let mut cells_compared = 0u64;
     for k in 0..n_reads {
-        let kind = gen_read(rng, n_total, k);
-        let batch_size = *rng.pick(&[1u32, 2, 7, 32, 100, 1024, 8192]);
-        let readahead = *rng.pick(&[1u32, 2, 16]);
+        // the shape of read k depends only on (read_seed, k, row count), not on the schema, so that the
+        // reduction (fewer columns) replays the same reads
+        let mut rk = Rng::for_case(read_seed, k as u64);
+        let kind = gen_read(&mut rk, n_total, k);
+        let batch_size = *rk.pick(&[1u32, 2, 7, 32, 100, 1024, 8192]);
+        let readahead = *rk.pick(&[1u32, 2, 16]);
+        let mut rp = Rng::for_case(read_seed ^ 0x5bd1_e995, k as u64);
+        let rng = &mut rp;
         // projection: all columns, or a random subset of top-level columns / nested leaves
         let proj_names: Option<Vec<String>> = if k < 2 || rng.chance(1, 2) {
             None
@@ -542,41 +557,32 @@ async fn run_case(ctx: &Ctx<'_>, rng: &mut Rng, selftest: bool) {
                 let refs: Vec<&str> = names.iter().map(|s| s.as_str()).collect();
                 // the documented way: project the file schema and map field ids to column indices with
                 // the mapping the writer reported
-                let projected = match reader.schema().project(&refs) {
+                let by_ids = reader
+                    .schema()
+                    .project(&refs)
+                    .and_then(|projected| ReaderProjection::from_field_ids(c.version, &projected, &mapping));
+                let by_ids = match by_ids {
                     Ok(p) => p,
                     Err(e) => {
-                        report.count("projection_rejected", 1);
-                        note_reject(report, "projection", &e.to_string());
-                        continue;
-                    }
-                };
-                let by_ids = match ReaderProjection::from_field_ids(c.version, &projected, &mapping) {
-                    Ok(p) => p,
-                    Err(e) => {
-                        report.count("projection_rejected", 1);
-                        note_reject(report, "projection", &e.to_string());
+                        stats.projection_rejected.push(e.to_string());
                         continue;
                     }
                 };
                 // the name based helper must agree with it
                 if let Ok(by_names) = ReaderProjection::from_column_names(c.version, reader.schema(), &refs) {
-                    report.count("projection_helpers_compared", 1);
-                    if by_names.column_indices != by_ids.column_indices && !selftest {
+                    stats.helpers_compared += 1;
+                    if by_names.column_indices != by_ids.column_indices {
                         let has_packed = tn.iter().any(|t| t == "packed_struct");
-                        let has_blob = tn.iter().any(|t| t.starts_with("blob"));
-                        let mut w = base_witness.clone();
-                        w["projection"] = json!(names);
-                        w["from_column_names"] = json!(by_names.column_indices);
-                        w["from_field_ids_with_writer_mapping"] = json!(by_ids.column_indices);
-                        report.violation(
-                            &format!(
-                                "from-column-names-wrong-column-indices-{}{}",
-                                if c.version >= LanceFileVersion::V2_1 { "2.1+" } else { "2.0" },
-                                if has_packed { "-packed-struct" } else if has_blob { "-blob" } else { "" }
+                        viols.push(Viol {
+                            kind: format!(
+                                "from-column-names-wrong-column-indices{}",
+                                if has_packed { "-with-packed-struct" } else { "" }
                             ),
-                            "ReaderProjection::from_column_names disagrees with the writer's field-id -> column mapping",
-                            w,
-                        );
+                            what: "ReaderProjection::from_column_names disagrees with the writer's field-id -> column mapping".into(),
+                            detail: json!({"projection": names, "from_column_names": by_names.column_indices,
+                                "from_field_ids_with_writer_mapping": by_ids.column_indices}),
+                            column: None,
+                        });
                     }
                 }
                 by_ids
@@ -588,41 +594,52 @@ async fn run_case(ctx: &Ctx<'_>, rng: &mut Rng, selftest: bool) {
             let s = reader.read_stream_projected(kind.params(), batch_size, readahead, projection, FilterExpression::no_filter())?;
             s.try_collect::<Vec<RecordBatch>>().await
         };
+        clear_panics();
+        // which top-level columns does this read touch?
+        let touched: Vec<usize> = match &proj_names {
+            None => (0..c.schema.fields().len()).collect(),
+            Some(names) => names
+                .iter()
+                .map(|p| c.schema.index_of(p.split('.').next().unwrap()).unwrap())
+                .collect(),
+        };
+        let only_col = if touched.len() == 1 { Some(touched[0]) } else { None };
         let got = match tokio::time::timeout(Duration::from_secs(180), AssertUnwindSafe(read).catch_unwind()).await {
             Err(_) => {
-                report.inconclusive(&format!("C25 case {} read {k}: no result in 180 s", ctx.idx));
+                stats.inconclusive.push(format!("read {k}: no result in 180 s"));
                 continue;
             }
             Ok(Err(_)) => {
-                let loc = LAST_PANIC.lock().unwrap().clone().unwrap_or_default();
-                let mut w = base_witness.clone();
-                w["read"] = read_desc;
-                w["panic"] = json!(loc);
-                report.violation(
-                    &format!("panic-in-reader-{}-{}-at-{}", version_name(c.version), kind.name(), short_loc(&loc)),
-                    &format!("read panicked: {loc}"),
-                    w,
-                );
+                let loc = first_panic();
+                viols.push(Viol {
+                    kind: format!("panic-in-reader-at-{}", short_loc(&loc)),
+                    what: format!("read panicked: {loc}"),
+                    detail: json!({"read": read_desc, "panic": loc}),
+                    column: only_col,
+                });
+                stats.reads.push((kind.name(), proj_names.is_some()));
                 continue;
             }
             Ok(Ok(Err(e))) => {
-                let mut w = base_witness.clone();
-                w["read"] = read_desc;
-                w["error"] = json!(e.to_string());
-                let msg: String = e.to_string().chars().filter(|c| !c.is_ascii_digit()).take(60).collect();
-                report.violation(
-                    &format!("read-error-{}-{}-{}", version_name(c.version), kind.name(), slug(&msg)),
-                    &format!("reading a written file failed: {e}"),
-                    w,
-                );
+                let inner = first_panic();
+                let kindname = if !inner.is_empty() && e.to_string().contains("panicked") {
+                    format!("panic-in-decode-task-at-{}", short_loc(&inner))
+                } else {
+                    let msg: String = e.to_string().chars().filter(|c| !c.is_ascii_digit()).take(70).collect();
+                    format!("read-error-{}", slug(&msg))
+                };
+                viols.push(Viol {
+                    kind: kindname,
+                    what: format!("reading a written file failed: {e}"),
+                    detail: json!({"read": read_desc, "error": e.to_string(), "panic": inner}),
+                    column: only_col,
+                });
+                stats.reads.push((kind.name(), proj_names.is_some()));
                 continue;
             }
             Ok(Ok(Ok(b))) => b,
         };
-        report.count(&format!("reads.{}", kind.name()), 1);
-        if proj_names.is_some() {
-            report.count("reads.projected", 1);
-        }
+        stats.reads.push((kind.name(), proj_names.is_some()));
         // expected rows for this read
         let rows = kind.rows(n_total);
         let exp_cols: Vec<(String, Vec<Cell>, usize)> = match &proj_names {
@@ -650,14 +667,17 @@ async fn run_case(ctx: &Ctx<'_>, rng: &mut Rng, selftest: bool) {
         let mut got_cols: Vec<Vec<Cell>> = vec![vec![]; exp_cols.len()];
         let mut bad_batch = None;
         let mut got = got;
-        if selftest && !got.is_empty() && got.iter().map(|b| b.num_rows()).sum::<usize>() >= 2 {
+        let mut corrupted = false;
+        if selftest && got.iter().map(|b| b.num_rows()).sum::<usize>() >= 2 {
             // damage the observation: drop the first row of the first non-empty batch
             if let Some(i) = got.iter().position(|b| b.num_rows() >= 1) {
                 let b = got[i].clone();
                 got[i] = b.slice(1, b.num_rows() - 1);
-                report.count("selftest_corrupted", 1);
+                stats.selftest_corrupted += 1;
+                corrupted = true;
             }
         }
+        let before = viols.len();
         for b in &got {
             if b.num_rows() > batch_size as usize {
                 bad_batch = Some(b.num_rows());
@@ -673,72 +693,381 @@ async fn run_case(ctx: &Ctx<'_>, rng: &mut Rng, selftest: bool) {
                 }
             }
         }
-        let mut flagged = false;
-        let vname = version_name(c.version);
         if let Some(nr) = bad_batch {
-            flagged = true;
-            if !selftest {
-                let mut w = base_witness.clone();
-                w["read"] = read_desc.clone();
-                report.violation(
-                    &format!("batch-shape-{vname}-{}", kind.name()),
-                    &format!("a batch has {nr} rows / wrong column count (batch_size {batch_size}, {} columns expected)", exp_cols.len()),
-                    w,
-                );
-            }
+            viols.push(Viol {
+                kind: "batch-shape".into(),
+                what: format!("a batch has {nr} rows / wrong column count (batch_size {batch_size}, {} columns expected)", exp_cols.len()),
+                detail: json!({"read": read_desc}),
+                column: only_col,
+            });
         }
         for (ci, (name, exp, top)) in exp_cols.iter().enumerate() {
+            if bad_batch == Some(usize::MAX) {
+                break;
+            }
             let g = &got_cols[ci];
-            cells_compared += g.len() as u64;
-            let f = c.schema.field(*top);
-            let tclass = type_class(f.data_type(), f);
+            stats.cells_compared += g.len() as u64;
             if g.len() != exp.len() {
-                flagged = true;
-                if !selftest {
-                    let mut w = base_witness.clone();
-                    w["read"] = read_desc.clone();
-                    w["column"] = json!(name);
-                    report.violation(
-                        &format!("row-count-{vname}-{}-{}", kind.name(), tclass),
-                        &format!("column {name}: read returned {} rows, expected {}", g.len(), exp.len()),
-                        w,
-                    );
-                }
+                viols.push(Viol {
+                    kind: "row-count".into(),
+                    what: format!("column {name}: read returned {} rows, expected {}", g.len(), exp.len()),
+                    detail: json!({"read": read_desc, "column": name}),
+                    column: Some(*top),
+                });
                 break;
             }
             if let Some(r) = (0..exp.len()).find(|r| exp[*r] != g[*r]) {
-                flagged = true;
-                if !selftest {
-                    let dp = diff_path(&exp[r], &g[r]);
-                    let mut w = base_witness.clone();
-                    w["read"] = read_desc.clone();
-                    w["column"] = json!(name);
-                    w["row_in_result"] = json!(r);
-                    w["row_in_file"] = json!(rows[r]);
-                    w["expected"] = json!(exp[r].render().chars().take(400).collect::<String>());
-                    w["observed"] = json!(g[r].render().chars().take(400).collect::<String>());
-                    w["mismatching_rows"] = json!((0..exp.len()).filter(|r| exp[*r] != g[*r]).count());
-                    report.violation(
-                        &format!("cell-differs-{vname}-{}-{}-{}", kind.name(), tclass, dp),
-                        &format!(
-                            "column {name} row {} (file row {}): expected {} got {}",
-                            r,
-                            rows[r],
-                            exp[r].render().chars().take(120).collect::<String>(),
-                            g[r].render().chars().take(120).collect::<String>()
-                        ),
-                        w,
-                    );
-                }
+                let dp = diff_path(&exp[r], &g[r]);
+                viols.push(Viol {
+                    kind: format!("cell-differs-{dp}"),
+                    what: format!(
+                        "column {name} row {} (file row {}): expected {} got {}",
+                        r,
+                        rows[r],
+                        exp[r].render().chars().take(120).collect::<String>(),
+                        g[r].render().chars().take(120).collect::<String>()
+                    ),
+                    detail: json!({"read": read_desc, "column": name, "row_in_result": r, "row_in_file": rows[r],
+                        "expected": exp[r].render().chars().take(400).collect::<String>(),
+                        "observed": g[r].render().chars().take(400).collect::<String>(),
+                        "mismatching_rows": (0..exp.len()).filter(|r| exp[*r] != g[*r]).count()}),
+                    column: Some(*top),
+                });
                 break;
             }
         }
-        if selftest && report.counter("selftest_corrupted") > report.counter("selftest_seen") {
-            report.count("selftest_seen", 1);
-            report.count(if flagged { "selftest_flagged" } else { "selftest_missed" }, 1);
+        if corrupted {
+            if viols.len() > before {
+                stats.selftest_flagged += 1;
+            }
+            viols.truncate(before);
         }
     }
-    report.count("cells_compared", cells_compared);
+    drop(reader);
+    drop(sched);
+    FileOutcome::Checked(viols, stats)
+}
+
+/// the same file restricted to one top-level column
+fn isolate_column(c: &FileCase, ci: usize) -> FileCase {
+    let schema = Arc::new(ArrowSchema::new(vec![c.schema.field(ci).clone()]));
+    let batches = c
+        .batches
+        .iter()
+        .map(|b| RecordBatch::try_new(schema.clone(), vec![b.column(ci).clone()]).expect("isolated batch"))
+        .collect();
+    FileCase {
+        version: c.version,
+        schema,
+        batches,
+        options_desc: c.options_desc.clone(),
+        data_cache_bytes: c.data_cache_bytes,
+        max_page_bytes: c.max_page_bytes,
+        keep_original_array: c.keep_original_array,
+    }
+}
+
+fn with_default_options(c: &FileCase) -> FileCase {
+    FileCase {
+        version: c.version,
+        schema: c.schema.clone(),
+        batches: c.batches.clone(),
+        options_desc: json!({"format_version": version_name(c.version), "data_cache_bytes": null, "max_page_bytes": null,
+            "keep_original_array": null}),
+        data_cache_bytes: None,
+        max_page_bytes: None,
+        keep_original_array: None,
+    }
+}
+
+fn single_batch(c: &FileCase) -> Option<FileCase> {
+    if c.batches.len() <= 1 {
+        return None;
+    }
+    let b = arrow_select::concat::concat_batches(&c.schema, c.batches.iter()).ok()?;
+    Some(FileCase {
+        version: c.version,
+        schema: c.schema.clone(),
+        batches: vec![b],
+        options_desc: c.options_desc.clone(),
+        data_cache_bytes: c.data_cache_bytes,
+        max_page_bytes: c.max_page_bytes,
+        keep_original_array: c.keep_original_array,
+    })
+}
+
+fn version_group(v: LanceFileVersion) -> &'static str {
+    if v >= LanceFileVersion::V2_1 {
+        "2.1+"
+    } else {
+        "2.0"
+    }
+}
+
+async fn run_case(ctx: &Ctx<'_>, rng: &mut Rng, selftest: bool) {
+    let report = ctx.report;
+    let c = gen_case(rng);
+    let read_seed = rng.next_u64();
+    let n_total: usize = c.batches.iter().map(|b| b.num_rows()).sum();
+    let out = check_file(&c, read_seed, selftest).await;
+    let vname = version_name(c.version);
+    let (viols, stats) = match out {
+        FileOutcome::SchemaRejected(e) => {
+            report.rejected();
+            report.count("rejected.schema_conversion", 1);
+            note_reject(report, "schema", &e);
+            report.case(None);
+            return;
+        }
+        FileOutcome::WriterRejected(e) => {
+            report.rejected();
+            report.count(&format!("rejected.writer.{vname}"), 1);
+            note_reject(report, vname, &e);
+            report.case(None);
+            return;
+        }
+        FileOutcome::WriterPanicked(loc) => {
+            // the writer did not accept the data (it died instead of returning an error): outside the
+            // property, kept as a diagnostic
+            report.rejected();
+            report.count("writer_panicked", 1);
+            report.count(&format!("writer_panicked.at.{}", short_loc(&loc)), 1);
+            if report.counter("writer_panicked") <= 4 {
+                report.set(
+                    &format!("writer_panic_example_{}", report.counter("writer_panicked")),
+                    json!({"case": ctx.idx, "schema": schema_desc(&c.schema), "version": vname, "panic": loc}),
+                );
+            }
+            report.case(None);
+            return;
+        }
+        FileOutcome::Inconclusive(why) => {
+            report.inconclusive(&format!("C25 case {}: {why}", ctx.idx));
+            report.case(None);
+            return;
+        }
+        FileOutcome::Checked(v, s) => (v, s),
+    };
+    // ---- accepted: evidence
+    let mut tn = vec![];
+    for f in c.schema.fields() {
+        type_names(f, &mut tn);
+    }
+    for t in &tn {
+        report.count(&format!("type.{t}"), 1);
+    }
+    report.count(&format!("files.{vname}"), 1);
+    report.count("rows_written", n_total as u64);
+    report.count("cells_compared", stats.cells_compared);
+    report.count("projection_helpers_compared", stats.helpers_compared);
+    for (k, p) in &stats.reads {
+        report.count(&format!("reads.{k}"), 1);
+        if *p {
+            report.count("reads.projected", 1);
+        }
+    }
+    for e in &stats.projection_rejected {
+        report.count("projection_rejected", 1);
+        note_reject(report, "projection", e);
+    }
+    for w in &stats.inconclusive {
+        report.inconclusive(&format!("C25 case {}: {w}", ctx.idx));
+    }
+    if selftest {
+        report.count("selftest_flagged", stats.selftest_flagged);
+        report.count("selftest_missed", stats.selftest_corrupted - stats.selftest_flagged);
+        report.case(None);
+        return;
+    }
+    // ---- violations: reduce the witness (single column, default options, one batch), then report the
+    // observations of the reduced file
+    if !viols.is_empty() {
+        let mut cur = c_clone(&c);
+        let mut cur_viols = viols.clone();
+        let mut steps: Vec<String> = vec![];
+        // 1. single column
+        if cur.schema.fields().len() > 1 {
+            let mut cols: Vec<usize> = cur_viols.iter().filter_map(|v| v.column).collect();
+            cols.extend(0..cur.schema.fields().len());
+            cols.dedup();
+            for ci in cols {
+                let cand = isolate_column(&cur, ci);
+                if let FileOutcome::Checked(v, _) = check_file(&cand, read_seed, false).await {
+                    if !v.is_empty() {
+                        steps.push(format!("only column {}", cur.schema.field(ci).name()));
+                        cur = cand;
+                        cur_viols = v;
+                        break;
+                    }
+                }
+            }
+        }
+        // 2. default writer options
+        if cur.data_cache_bytes.is_some() || cur.max_page_bytes.is_some() || cur.keep_original_array.is_some() {
+            let cand = with_default_options(&cur);
+            if let FileOutcome::Checked(v, _) = check_file(&cand, read_seed, false).await {
+                if !v.is_empty() {
+                    steps.push("default writer options".into());
+                    cur = cand;
+                    cur_viols = v;
+                }
+            }
+        }
+        // 3. fewer batches, fewer rows per batch (greedy, bounded)
+        let mut budget = 120;
+        let mut progress = true;
+        while progress && budget > 0 {
+            progress = false;
+            let mut i = 0;
+            while i < cur.batches.len() && budget > 0 {
+                // drop batch i
+                let mut cand = c_clone(&cur);
+                cand.batches.remove(i);
+                budget -= 1;
+                if let FileOutcome::Checked(v, _) = check_file(&cand, read_seed, false).await {
+                    if !v.is_empty() {
+                        cur = cand;
+                        cur_viols = v;
+                        progress = true;
+                        continue;
+                    }
+                }
+                // halve batch i (front half, back half)
+                let n = cur.batches[i].num_rows();
+                let mut shrunk = false;
+                if n >= 2 {
+                    for (off, len) in [(0, n / 2), (n / 2, n - n / 2), (0, n - 1), (1, n - 1)] {
+                        let mut cand = c_clone(&cur);
+                        cand.batches[i] = cur.batches[i].slice(off, len);
+                        budget -= 1;
+                        if let FileOutcome::Checked(v, _) = check_file(&cand, read_seed, false).await {
+                            if !v.is_empty() {
+                                cur = cand;
+                                cur_viols = v;
+                                progress = true;
+                                shrunk = true;
+                                break;
+                            }
+                        }
+                    }
+                }
+                if !shrunk {
+                    i += 1;
+                }
+            }
+        }
+        if budget < 120 {
+            steps.push("batches dropped / shrunk greedily".into());
+        }
+        // 4. one batch
+        if let Some(cand) = single_batch(&cur) {
+            if let FileOutcome::Checked(v, _) = check_file(&cand, read_seed, false).await {
+                if !v.is_empty() {
+                    steps.push("all rows in one batch".into());
+                    cur = cand;
+                    cur_viols = v;
+                }
+            }
+        }
+        // 5. does the physical layout matter? rebuild every array with `take(0..n)`
+        {
+            let mut cand = c_clone(&cur);
+            let mut ok = true;
+            for b in cand.batches.iter_mut() {
+                let idx = UInt32Array::from((0..b.num_rows() as u32).collect::<Vec<_>>());
+                let cols: Result<Vec<ArrayRef>, _> = b.columns().iter().map(|a| arrow_select::take::take(a.as_ref(), &idx, None)).collect();
+                match cols.and_then(|c| RecordBatch::try_new(b.schema(), c)) {
+                    Ok(nb) => *b = nb,
+                    Err(_) => ok = false,
+                }
+            }
+            if ok {
+                if let FileOutcome::Checked(v, _) = check_file(&cand, read_seed, false).await {
+                    if !v.is_empty() {
+                        steps.push("arrays rebuilt with take(): physical layout does not matter".into());
+                        cur = cand;
+                        cur_viols = v;
+                    } else {
+                        steps.push("NOT reproducible after rebuilding the arrays with take(): depends on the physical layout (slice offsets / spare buffer space / absent null buffers)".into());
+                    }
+                }
+            }
+        }
+        let mut tnm = vec![];
+        for f in cur.schema.fields() {
+            type_names(f, &mut tnm);
+        }
+        let single = cur.schema.fields().len() == 1;
+        let tclass = if single { tnm.join("/") } else { "several-columns".to_string() };
+        let skel = if single { skeleton(cur.schema.field(0), 0) } else { "several-columns".to_string() };
+        let layout_dependent = steps.iter().any(|s| s.starts_with("NOT reproducible"));
+        let base_witness = json!({"seed": ctx.seed as i64, "case": ctx.idx, "read_seed": read_seed.to_string(),
+            "original_schema": schema_desc(&c.schema), "reduction": steps,
+            "schema": schema_desc(&cur.schema),
+            "batch_rows": cur.batches.iter().map(|b| b.num_rows()).collect::<Vec<_>>(), "options": cur.options_desc,
+            "all_observations": cur_viols.iter().map(|v| v.kind.clone()).collect::<std::collections::BTreeSet<_>>(),
+            "data": if cur.batches.iter().map(|b| b.num_rows()).sum::<usize>() <= 24 {
+                json!(cur.batches.iter().map(|b| {
+                    (0..b.num_rows()).map(|r| (0..b.num_columns()).map(|ci| cell_at(b.column(ci).as_ref(), r).render()).collect::<Vec<_>>().join(" | ")).collect::<Vec<_>>()
+                }).collect::<Vec<_>>())
+            } else { Value::Null },
+            "physical_layout": if cur.batches.iter().map(|b| b.num_rows()).sum::<usize>() <= 4 {
+                json!(cur.batches.iter().map(|b| b.columns().iter().map(|a| format!("{:?}", a.to_data()).chars().take(1500).collect::<String>()).collect::<Vec<_>>()).collect::<Vec<_>>())
+            } else { Value::Null }});
+        let mut seen = std::collections::BTreeSet::new();
+        for v in &cur_viols {
+            // narrow class: symptom (panic location / error text / diff path), format generation, whether
+            // the physical layout of the input arrays matters, and for value-level symptoms the
+            // nesting skeleton of the reduced column
+            // root-cause class computed from the reduced data: a page of a nested (list) column in which
+            // no leaf value is non-null (only empty / null lists or null items) takes the "all null"
+            // page layouts of the 2.1 structural encoding
+            let no_leaf = cur.batches.iter().any(|b| {
+                b.num_rows() > 0
+                    && b.columns().iter().any(|c| leaf_projections(c).iter().any(|(p, through)| *through && !has_non_null_leaf(p.as_ref())))
+            });
+            let kind = if v.kind.starts_with("cell-differs") && v.kind.ends_with("list-length") || v.kind == "row-count" {
+                "list-structure-differs".to_string()
+            } else if v.kind.starts_with("read-error-encountered-internal-error") {
+                "read-error-internal".to_string()
+            } else {
+                v.kind.clone()
+            };
+            // observations on a blob column are the blob class whatever else the file contains
+            let on_blob = v
+                .column
+                .map(|ci| ci < cur.schema.fields().len() && cur.schema.field(ci).metadata().contains_key("lance-encoding:blob"))
+                .unwrap_or(false);
+            let (no_leaf, skel) = if on_blob { (false, "blob".to_string()) } else { (no_leaf, skel.clone()) };
+            let needs_skel = !no_leaf && (kind.starts_with("list-structure") || kind.starts_with("cell-differs") || kind.starts_with("read-error"));
+            // a panic location or the projection helper is already a narrow class of its own
+            let self_contained = kind.starts_with("panic-") || kind.starts_with("from-column-names");
+            let sig = if self_contained {
+                format!("{}-{}", kind, version_group(cur.version))
+            } else {
+                format!(
+                "{}-{}{}{}",
+                kind,
+                version_group(cur.version),
+                if no_leaf {
+                    "-list-page-without-non-null-leaf-values"
+                } else if layout_dependent {
+                    "-layout-dependent"
+                } else {
+                    ""
+                },
+                if needs_skel { format!("-{skel}") } else { String::new() }
+            )
+            };
+            if !seen.insert(sig.clone()) {
+                continue;
+            }
+            let mut w = base_witness.clone();
+            w["observation"] = v.detail.clone();
+            w["type_class"] = json!(tclass);
+            report.violation(&sig, &v.what, w);
+        }
+    }
     let interesting = tn.iter().any(|t| {
         t.contains("list") || t.contains("struct") || t.contains("utf8") || t.contains("binary") || t.contains("dictionary") || t.contains("blob")
     });
@@ -751,22 +1080,179 @@ async fn run_case(ctx: &Ctx<'_>, rng: &mut Rng, selftest: bool) {
         _ => 4,
     };
     let sig = fnv(
-        format!(
-            "{}|{}|{rows_class}|{:?}|{:?}",
-            version_name(c.version),
-            tn.join(","),
-            c.data_cache_bytes,
-            c.max_page_bytes
-        )
-        .as_bytes(),
+        format!("{vname}|{}|{rows_class}|{:?}|{:?}", tn.join(","), c.data_cache_bytes, c.max_page_bytes).as_bytes(),
     );
     report.case(if nontrivial { Some(sig) } else { None });
     if report.want_sample() && nontrivial && tn.len() >= 4 && ctx.idx % 13 == 0 {
         report.sample(json!({"case": ctx.idx, "schema": schema_desc(&c.schema), "rows": n_total, "batches": c.batches.len(),
-            "options": c.options_desc, "reads": n_reads, "outcome": "all reads equal"}));
+            "options": c.options_desc, "reads": stats.reads.len(), "outcome": if viols.is_empty() { "all reads equal" } else { "see violations" }}));
     }
-    drop(reader);
-    drop(sched);
+}
+
+/// nesting skeleton of a field: constructors only, ordinary leaves collapsed
+fn skeleton(f: &Field, depth: usize) -> String {
+    let packed = f.metadata().get("packed").is_some() || f.metadata().get("lance-encoding:packed").is_some();
+    if f.metadata().contains_key("lance-encoding:blob") {
+        return "blob".into();
+    }
+    if depth >= 3 {
+        return "..".into();
+    }
+    match f.data_type() {
+        DataType::List(c) | DataType::LargeList(c) => format!("list<{}>", skeleton(c, depth + 1)),
+        DataType::FixedSizeList(c, _) => format!("fsl<{}>", skeleton(c, depth + 1)),
+        DataType::Struct(fs) => {
+            if packed {
+                return "packed".into();
+            }
+            let mut kids: Vec<String> = fs.iter().map(|c| skeleton(c, depth + 1)).collect();
+            kids.sort();
+            kids.dedup();
+            format!("struct<{}>", kids.join(","))
+        }
+        DataType::Null => "null".into(),
+        DataType::Dictionary(..) => "dict".into(),
+        DataType::Utf8 | DataType::LargeUtf8 | DataType::Binary | DataType::LargeBinary => {
+            if f.metadata().get("lance-encoding:structural-encoding").map(|s| s.as_str()) == Some("fullzip") {
+                "varwidth-fullzip".into()
+            } else {
+                "varwidth".into()
+            }
+        }
+        _ => "leaf".into(),
+    }
+}
+
+/// One array per leaf column of `a`: the same nesting with every struct reduced to the single child on
+/// the way to that leaf (validity of all levels kept), plus whether the path crosses a list.
+fn leaf_projections(a: &ArrayRef) -> Vec<(ArrayRef, bool)> {
+    use arrow_array::cast::AsArray;
+    use arrow_array::{FixedSizeListArray, LargeListArray, ListArray, StructArray};
+    match a.data_type() {
+        DataType::List(f) => {
+            let l = a.as_list::<i32>();
+            leaf_projections(l.values())
+                .into_iter()
+                .map(|(v, _)| {
+                    let nf = Arc::new(Field::new(f.name(), v.data_type().clone(), true));
+                    (Arc::new(ListArray::new(nf, l.offsets().clone(), v, l.nulls().cloned())) as ArrayRef, true)
+                })
+                .collect()
+        }
+        DataType::LargeList(f) => {
+            let l = a.as_list::<i64>();
+            leaf_projections(l.values())
+                .into_iter()
+                .map(|(v, _)| {
+                    let nf = Arc::new(Field::new(f.name(), v.data_type().clone(), true));
+                    (Arc::new(LargeListArray::new(nf, l.offsets().clone(), v, l.nulls().cloned())) as ArrayRef, true)
+                })
+                .collect()
+        }
+        DataType::FixedSizeList(f, n) => {
+            let l = a.as_fixed_size_list();
+            leaf_projections(l.values())
+                .into_iter()
+                .map(|(v, t)| {
+                    let nf = Arc::new(Field::new(f.name(), v.data_type().clone(), true));
+                    (Arc::new(FixedSizeListArray::new(nf, *n, v, l.nulls().cloned())) as ArrayRef, t)
+                })
+                .collect()
+        }
+        DataType::Struct(fs) if !fs.is_empty() => {
+            let st = a.as_struct();
+            let mut out = vec![];
+            for (i, f) in fs.iter().enumerate() {
+                for (v, t) in leaf_projections(st.column(i)) {
+                    let nf = Arc::new(Field::new(f.name(), v.data_type().clone(), true));
+                    out.push((
+                        Arc::new(StructArray::new(vec![nf].into(), vec![v], st.nulls().cloned())) as ArrayRef,
+                        t,
+                    ));
+                }
+            }
+            out
+        }
+        _ => vec![(a.clone(), false)],
+    }
+}
+
+/// is there a leaf column below at least one list level that holds no non-null value in this array?
+#[allow(dead_code)]
+/// (each leaf is a physical column of its own in the 2.1 format; such a page takes the all-null layouts)
+fn listy_leaf_without_values(a: &dyn Array, through_list: bool) -> bool {
+    use arrow_array::cast::AsArray;
+    match a.data_type() {
+        DataType::List(_) => {
+            let l = a.as_list::<i32>();
+            let (lo, hi) = (l.value_offsets()[0] as usize, l.value_offsets()[l.len()] as usize);
+            listy_leaf_without_values(l.values().slice(lo, hi - lo).as_ref(), true)
+        }
+        DataType::LargeList(_) => {
+            let l = a.as_list::<i64>();
+            let (lo, hi) = (l.value_offsets()[0] as usize, l.value_offsets()[l.len()] as usize);
+            listy_leaf_without_values(l.values().slice(lo, hi - lo).as_ref(), true)
+        }
+        DataType::FixedSizeList(_, n) => {
+            let l = a.as_fixed_size_list();
+            let n = *n as usize;
+            listy_leaf_without_values(l.values().slice(l.offset() * n, l.len() * n).as_ref(), through_list)
+        }
+        DataType::Struct(_) => {
+            let packed = false;
+            let _ = packed;
+            a.as_struct().columns().iter().any(|c| listy_leaf_without_values(c.as_ref(), through_list))
+        }
+        DataType::Null => through_list,
+        _ => through_list && a.logical_nulls().map(|n| n.null_count() == a.len()).unwrap_or(a.is_empty()),
+    }
+}
+
+#[allow(dead_code)]
+fn has_list(dt: &DataType) -> bool {
+    match dt {
+        DataType::List(_) | DataType::LargeList(_) => true,
+        DataType::FixedSizeList(c, _) => has_list(c.data_type()),
+        DataType::Struct(fs) => fs.iter().any(|f| has_list(f.data_type())),
+        _ => false,
+    }
+}
+
+/// is there any non-null value in a leaf (non-nested) array reachable through valid parents?
+fn has_non_null_leaf(a: &dyn Array) -> bool {
+    use arrow_array::cast::AsArray;
+    match a.data_type() {
+        DataType::List(_) => {
+            let l = a.as_list::<i32>();
+            (0..l.len()).any(|i| l.is_valid(i) && has_non_null_leaf(l.value(i).as_ref()))
+        }
+        DataType::LargeList(_) => {
+            let l = a.as_list::<i64>();
+            (0..l.len()).any(|i| l.is_valid(i) && has_non_null_leaf(l.value(i).as_ref()))
+        }
+        DataType::FixedSizeList(_, _) => {
+            let l = a.as_fixed_size_list();
+            (0..l.len()).any(|i| l.is_valid(i) && has_non_null_leaf(l.value(i).as_ref()))
+        }
+        DataType::Struct(_) => {
+            let st = a.as_struct();
+            (0..st.len()).any(|i| st.is_valid(i) && st.columns().iter().any(|c| has_non_null_leaf(c.slice(i, 1).as_ref())))
+        }
+        DataType::Null => false,
+        _ => a.logical_nulls().map(|n| n.null_count() < a.len()).unwrap_or(a.len() > 0),
+    }
+}
+
+fn c_clone(c: &FileCase) -> FileCase {
+    FileCase {
+        version: c.version,
+        schema: c.schema.clone(),
+        batches: c.batches.clone(),
+        options_desc: c.options_desc.clone(),
+        data_cache_bytes: c.data_cache_bytes,
+        max_page_bytes: c.max_page_bytes,
+        keep_original_array: c.keep_original_array,
+    }
 }
 
 fn short_loc(loc: &str) -> String {
@@ -798,11 +1284,166 @@ fn note_reject(report: &Report, stage: &str, msg: &str) {
     report.count(&format!("reject_reason.{stage}.{}", slug(&key)), 1);
 }
 
-pub fn run(args: &Args) -> i32 {
-    let selftest = args.extra.contains_key("selftest");
-    let report = Report::new(args, "exploration", RULE, (55, 900)).with_min_nontrivial(100);
-    report.assume("struct-level nulls are generated only for format >= 2.1 (2.0 documents that it cannot store them)");
-    report.assume("batch_size is an upper bound for batch length (documented), not an exact size");
+/// `--probe-list "N;[1,n];[]" [--batches 1,2] [--cache 1] [--page 64] [--version 2.1] [--garbage 1]`:
+/// one `List<Int8?>?` column with explicit rows (N = null list, n = null item), written and read back
+/// with the same oracle; prints the observations. Used to minimise witnesses by hand.
+fn probe_list(args: &Args, spec: &str) -> i32 {
+    use arrow_array::{Int8Array, ListArray};
+    use arrow_buffer::{NullBuffer, OffsetBuffer};
+    let rows: Vec<Option<Vec<Option<i8>>>> = spec
+        .split(';')
+        .map(|t| {
+            let t = t.trim();
+            if t == "N" {
+                None
+            } else {
+                let inner = t.trim_start_matches('[').trim_end_matches(']');
+                Some(
+                    inner
+                        .split(',')
+                        .filter(|x| !x.trim().is_empty())
+                        .map(|x| if x.trim() == "n" { None } else { Some(x.trim().parse::<i8>().unwrap()) })
+                        .collect(),
+                )
+            }
+        })
+        .collect();
+    let garbage = args.extra.contains_key("garbage");
+    let item = Arc::new(Field::new("item", DataType::Int8, true));
+    let schema = Arc::new(ArrowSchema::new(vec![Field::new("c0", DataType::List(item.clone()), true)]));
+    let sizes: Vec<usize> = match args.extra.get("batches") {
+        Some(b) => b.split(',').map(|x| x.parse().unwrap()).collect(),
+        None => vec![rows.len()],
+    };
+    let mut batches = vec![];
+    let mut pos = 0;
+    for n in sizes {
+        let part = &rows[pos..pos + n];
+        pos += n;
+        let mut vals: Vec<Option<i8>> = vec![];
+        let mut lens = vec![];
+        let mut valid = vec![];
+        for r in part {
+            match r {
+                None => {
+                    if garbage {
+                        vals.extend([Some(7), Some(8)]);
+                        lens.push(2);
+                    } else {
+                        lens.push(0);
+                    }
+                    valid.push(false);
+                }
+                Some(v) => {
+                    vals.extend(v.iter().copied());
+                    lens.push(v.len());
+                    valid.push(true);
+                }
+            }
+        }
+        let nulls = if valid.iter().all(|v| *v) && !args.extra.contains_key("nullbuf") { None } else { Some(NullBuffer::from(valid.clone())) };
+        // --pad pre,post: surround the rows by lists [1,2] and slice them off again
+        let (pre, post) = match args.extra.get("pad") {
+            Some(p) => {
+                let (a, b) = p.split_once(',').unwrap();
+                (a.parse::<usize>().unwrap(), b.parse::<usize>().unwrap())
+            }
+            None => (0, 0),
+        };
+        let mut all_vals: Vec<Option<i8>> = vec![];
+        let mut all_lens = vec![];
+        let mut all_valid = vec![];
+        let padempty = args.extra.contains_key("padempty");
+        for _ in 0..pre {
+            if padempty {
+                all_lens.push(0);
+            } else {
+                all_vals.extend([Some(1), Some(2)]);
+                all_lens.push(2);
+            }
+            all_valid.push(true);
+        }
+        all_vals.extend(vals);
+        all_lens.extend(lens);
+        all_valid.extend(valid);
+        for _ in 0..post {
+            if padempty {
+                all_lens.push(0);
+            } else {
+                all_vals.extend([Some(1), Some(2)]);
+                all_lens.push(2);
+            }
+            all_valid.push(true);
+        }
+        let nulls = if pre + post > 0 {
+            if all_valid.iter().all(|v| *v) && !args.extra.contains_key("nullbuf") { None } else { Some(NullBuffer::from(all_valid)) }
+        } else {
+            nulls
+        };
+        let arr = ListArray::new(item.clone(), OffsetBuffer::from_lengths(all_lens), {
+            let a = Int8Array::from(all_vals);
+            if args.extra.contains_key("plainitems") && a.null_count() == 0 {
+                // items without a validity buffer
+                let (_, vals, _) = a.into_parts();
+                Arc::new(Int8Array::new(vals, None))
+            } else {
+                Arc::new(a)
+            }
+        }, nulls);
+        let b = RecordBatch::try_new(schema.clone(), vec![Arc::new(arr) as ArrayRef]).unwrap();
+        let _ = &b;
+        let sliced = b.slice(pre, n);
+        let sliced = if args.extra.get("item").map(|s| s.as_str()) == Some("date32") {
+            let t32 = DataType::List(Arc::new(Field::new("item", DataType::Int32, true)));
+            let td = DataType::List(Arc::new(Field::new("item", DataType::Date32, true)));
+            let a = arrow_cast::cast(sliced.column(0).as_ref(), &t32).unwrap();
+            let a = arrow_cast::cast(a.as_ref(), &td).unwrap();
+            let sch = Arc::new(ArrowSchema::new(vec![Field::new("c0", td, true)]));
+            RecordBatch::try_new(sch, vec![a]).unwrap()
+        } else {
+            sliced
+        };
+        batches.push(sliced);
+        if args.extra.contains_key("dump") {
+            println!("layout: {:?}", batches.last().unwrap().column(0).to_data());
+        }
+    }
+    let version = match args.extra.get("version").map(|s| s.as_str()) {
+        Some("2.0") => LanceFileVersion::V2_0,
+        Some("2.2") => LanceFileVersion::V2_2,
+        _ => LanceFileVersion::V2_1,
+    };
+    let schema = batches.first().map(|b| b.schema()).unwrap_or(schema);
+    let c = FileCase {
+        version,
+        schema,
+        batches,
+        options_desc: json!({}),
+        data_cache_bytes: args.extra.get("cache").and_then(|s| s.parse().ok()),
+        max_page_bytes: args.extra.get("page").and_then(|s| s.parse().ok()),
+        keep_original_array: None,
+    };
+    install_hook();
+    let rt = tokio::runtime::Builder::new_current_thread().enable_all().build().unwrap();
+    let rs: u64 = args.extra.get("read-seed").and_then(|s| s.parse().ok()).unwrap_or(args.seed);
+    let out = rt.block_on(check_file(&c, rs, false));
+    match out {
+        FileOutcome::Checked(v, st) => {
+            println!("version={} cache={:?} page={:?} rows={spec} -> {} reads, {} observations", version_name(version), c.data_cache_bytes, c.max_page_bytes, st.reads.len(), v.len());
+            let mut seen = std::collections::BTreeSet::new();
+            for x in v {
+                if seen.insert(x.kind.clone()) {
+                    println!("  {}: {}", x.kind, x.what.chars().take(300).collect::<String>());
+                }
+            }
+        }
+        FileOutcome::WriterPanicked(l) => println!("writer panicked: {l}"),
+        FileOutcome::WriterRejected(e) | FileOutcome::SchemaRejected(e) | FileOutcome::Inconclusive(e) => println!("not checked: {e}"),
+    }
+    0
+}
+
+fn install_hook() {
     std::panic::set_hook(Box::new(|info| {
         let loc = info
             .location()
@@ -814,8 +1455,26 @@ pub fn run(args: &Args) -> i32 {
             .map(|s| s.to_string())
             .or_else(|| info.payload().downcast_ref::<String>().cloned())
             .unwrap_or_default();
-        *LAST_PANIC.lock().unwrap() = Some(format!("{loc}: {}", msg.chars().take(200).collect::<String>()));
+        let text = format!("{loc}: {}", msg.chars().take(200).collect::<String>());
+        let _ = PANICS.try_with(|p| {
+            let mut p = p.borrow_mut();
+            if p.len() < 8 {
+                p.push(text.clone());
+            }
+        });
+        *LAST_PANIC.lock().unwrap() = Some(text);
     }));
+}
+
+pub fn run(args: &Args) -> i32 {
+    if let Some(spec) = args.extra.get("probe-list") {
+        return probe_list(args, spec);
+    }
+    let selftest = args.extra.contains_key("selftest");
+    let report = Report::new(args, "exploration", RULE, (55, 900)).with_min_nontrivial(100);
+    report.assume("struct-level nulls are generated only for format >= 2.1 (2.0 documents that it cannot store them)");
+    report.assume("batch_size is an upper bound for batch length (documented), not an exact size");
+    install_hook();
     let only: Option<u64> = args.extra.get("only-case").and_then(|s| s.parse().ok());
     let threads = if only.is_some() { 1 } else { crate::sink::verif_threads().min(14) };
     let max_cases: u64 = args.tier.pick(100_000, 10_000_000);
@@ -823,11 +1482,7 @@ pub fn run(args: &Args) -> i32 {
     std::thread::scope(|s| {
         for _ in 0..threads {
             s.spawn(|| {
-                let rt = tokio::runtime::Builder::new_multi_thread()
-                    .worker_threads(2)
-                    .enable_all()
-                    .build()
-                    .expect("rt");
+                let rt = tokio::runtime::Builder::new_current_thread().enable_all().build().expect("rt");
                 loop {
                     let idx = match only {
                         Some(c) => {
